@@ -38,7 +38,8 @@ Inductive hcall := HResponse | HStream | HChannel | HFnf | HMetaPush | HOnError 
 
 Inductive effect :=
 | XEnq (f : frame)                       (* send_frame / send_request *)
-| XFut (oid : nat) (ok : bool)           (* requester's awaitable resolved: result (true) / exception (false) *)
+| XFut (oid : nat) (ok : bool) (md d : bytes)   (* requester's awaitable resolved: with the payload (md, d) as its result
+                                            (true) / with an exception (false; md = d = []) *)
 | XCb (oid : nat) (s : signal)           (* signal delivered to the application's subscriber of object oid *)
 | XPub (oid : nat) (p : pubop)           (* call on the application's publisher / its subscription *)
 | XAppFutCancel (oid : nat)              (* the application's response future was cancelled by the library *)
@@ -147,16 +148,16 @@ Definition handler_frame (e : ep) (oid : nat) (o : hobj) (f : frame) (utf8 : boo
   match o_kind o with
   | KRRReq =>
       match f with
-      | FPayload _ _ _ _ _ _ _ =>
+      | FPayload _ _ _ _ _ md d =>
           let o1 := upd_responded o in
           match o_fut o with
-          | FPending => (finish (set_obj e oid (upd_fut o1 FResolved)) sid, [XFut oid true], false)
+          | FPending => (finish (set_obj e oid (upd_fut o1 FResolved)) sid, [XFut oid true md d], false)
           | _ => (finish (set_obj e oid o1) sid, [], false)
           end
       | FError _ _ _ _ =>
           let o1 := upd_responded o in
           match o_fut o with
-          | FPending => if utf8 then (finish (set_obj e oid (upd_fut o1 FResolved)) sid, [XFut oid false], false)
+          | FPending => if utf8 then (finish (set_obj e oid (upd_fut o1 FResolved)) sid, [XFut oid false [] []], false)
                         else (set_obj e oid o1, [], true)
           | _ => (finish (set_obj e oid o1) sid, [], false)
           end
